@@ -1154,4 +1154,339 @@ theorem member_print (s : MemberShape) (q r : List Token) (fuel : Nat)
   | m x => exact method_print x q r fuel hq hfuel
   | p x => exact prop_print x q r fuel hq hfuel
 
+theorem errParamsL_print (ps : List ParamShape) (pre : List Token) (rp : Token) (rest : List Token) (fuel n : Nat)
+    (hp : pre.map (·.tk) = ps.flatMap printParam) (hrp : rp.tk = .kw ")") (hfuel : pre.length ≤ fuel + 1)
+    (hn : ps.length < n) :
+    ∃ as, HeadIs (errParamsL fuel n (pre ++ rp :: rest)) as (rp :: rest) ∧
+      mapOpt Param.shape? as = some (ps.map ParamShape.erase) := by
+  induction ps generalizing pre n with
+  | nil =>
+    simp at hp; subst hp
+    cases n with
+    | zero => simp at hn
+    | succ k =>
+      have hst : startsParam (rp :: rest) = false := by cases rest <;> simp [startsParam, hrp]
+      refine ⟨[], ?_, rfl⟩
+      simp only [errParamsL, List.nil_append, hst]
+      exact ⟨[], by simp⟩
+  | cons p ps ih =>
+    cases n with
+    | zero => simp at hn
+    | succ k =>
+      rw [List.flatMap_cons] at hp
+      have hst := startsParam_of p _ pre (rp :: rest) hp
+      obtain ⟨ppre, pre', rfl, hpp, hpre'⟩ := List.map_eq_append_iff.mp hp
+      simp only [List.length_append] at hfuel
+      have hfo : FollowOK p.ty (pre' ++ rp :: rest) := by
+        cases ps with
+        | nil =>
+          simp at hpre'; subst hpre'
+          apply FollowOK_of_simple <;> simp [peekKw_cons, hrp]
+        | cons q qs =>
+          rw [List.flatMap_cons] at hpre'
+          simp only [printParam, List.cons_append] at hpre'
+          obtain ⟨nt, b1, rfl, hn', _⟩ := List.map_eq_cons_iff.mp hpre'
+          apply FollowOK_of_simple <;> simp [peekKw_cons, hn']
+      obtain ⟨a, ha, hs⟩ := paramL_print p ppre (pre' ++ rp :: rest) fuel hpp hfo (by omega)
+      obtain ⟨as, has, hss⟩ := ih pre' k hpre' (by omega) (by simp at hn; omega)
+      refine ⟨a :: as, ?_, by simp [mapOpt, hs, hss]⟩
+      rw [List.append_assoc] at hst ⊢
+      simp only [errParamsL, hst, if_true, ha, List.flatMap_cons, List.flatMap_nil, List.append_nil]
+      exact (HeadIs.map (fun x : List Param × List Token => (a :: x.1, x.2)) has).append
+
+theorem errCode_print (s : ErrCodeShape) (q r : List Token) (fuel : Nat)
+    (hq : q.map (·.tk) = printErrCode s) (hfuel : q.length ≤ fuel) :
+    ∃ a, errCode fuel (q ++ r) = some (a, r) ∧ a.shape? = some s.erase := by
+  obtain ⟨sn, sps, sc⟩ := s
+  simp only [printErrCode] at hq
+  obtain ⟨cs, b1, rfl, hcs, hb⟩ := List.map_eq_append_iff.mp hq
+  obtain ⟨nt, b2, rfl, hn, hb⟩ := List.map_eq_cons_iff.mp hb
+  obtain ⟨par, b3, rfl, hpar, hb⟩ := List.map_eq_append_iff.mp hb
+  obtain ⟨semi, b5, rfl, hsemi, hb⟩ := List.map_eq_cons_iff.mp hb
+  rw [List.map_eq_nil_iff] at hb; subst hb
+  have hcm := comments_print' cs sc nt (par ++ semi :: r) hcs (by simp [hn])
+  have e : cs ++ nt :: (par ++ [semi]) ++ r = cs ++ nt :: (par ++ semi :: r) := by simp
+  rw [e]
+  cases sps with
+  | nil =>
+    simp at hpar; subst hpar
+    unfold errCode
+    simp only [List.nil_append] at hcm ⊢
+    simp only [hcm, ident, hn, Option.bind_eq_bind, Option.bind_some, peekKw_ne hsemi (by decide : ";" ≠ "("),
+      Bool.false_eq_true, if_false, kw?_cons _ _ _ hsemi, Option.pure_def]
+    exact ⟨_, rfl, by simp [ErrCode.shape?, mapOpt, ErrCodeShape.erase]⟩
+  | cons p ps =>
+    simp only at hpar
+    obtain ⟨lp, b6, rfl, hlp, hb⟩ := List.map_eq_cons_iff.mp hpar
+    obtain ⟨pp, b7, rfl, hpp, hb⟩ := List.map_eq_append_iff.mp hb
+    obtain ⟨rp, b8, rfl, hrp, hb⟩ := List.map_eq_cons_iff.mp hb
+    rw [List.map_eq_nil_iff] at hb; subst hb
+    simp only [List.length_append, List.length_cons] at hfuel
+    have hlen := length_le_of_flatMap printParam (fun s => by have := printParam_length s; omega) (p :: ps) pp hpp
+    obtain ⟨as, has, hss⟩ := errParamsL_print (p :: ps) pp rp (semi :: r) fuel fuel hpp hrp (by omega) (by omega)
+    unfold errCode
+    simp only [List.cons_append, List.append_assoc, List.nil_append] at hcm ⊢
+    simp only [hcm, ident, hn, Option.bind_eq_bind, Option.bind_some, peekKw_eq hlp, if_true, List.tail_cons]
+    rw [firstThat_head' has (by simp [kw?_cons _ _ _ hrp, kw?_cons _ _ _ hsemi])]
+    simp only [kw?_cons _ _ _ hrp, kw?_cons _ _ _ hsemi, Option.bind_some, Option.pure_def]
+    exact ⟨_, rfl, by simp [ErrCode.shape?, hss, ErrCodeShape.erase]⟩
+
+theorem derivingList_print (ds : List String) (hne : ds ≠ []) (pre : List Token) (rp : Token) (rest : List Token)
+    (n : Nat) (hp : pre.map (·.tk) = printIds ds) (hrp : rp.tk = .kw ")") (hn : ds.length ≤ n) :
+    ∃ l, derivingList n (pre ++ rp :: rest) = some (l, rp :: rest) ∧ l.map (·.1) = ds := by
+  match ds, hne with
+  | [d], _ =>
+    simp only [printIds] at hp
+    obtain ⟨dt, b1, rfl, hd, hb⟩ := List.map_eq_cons_iff.mp hp
+    rw [List.map_eq_nil_iff] at hb; subst hb
+    cases n with
+    | zero => simp at hn
+    | succ k =>
+      simp only [derivingList, List.cons_append, List.nil_append, ident, hd, Option.bind_eq_bind, Option.bind_some,
+        peekKw_ne hrp (by decide : ")" ≠ ","), Bool.false_eq_true, if_false, Option.pure_def]
+      exact ⟨_, rfl, by simp⟩
+  | d :: e :: ds, _ =>
+    simp only [printIds] at hp
+    obtain ⟨dt, b1, rfl, hd, hb⟩ := List.map_eq_cons_iff.mp hp
+    obtain ⟨comma, pre', rfl, hcomma, hb⟩ := List.map_eq_cons_iff.mp hb
+    cases n with
+    | zero => simp at hn
+    | succ k =>
+      obtain ⟨l, hl, hls⟩ := derivingList_print (e :: ds) (by simp) pre' rp rest k hb hrp (by simp at hn ⊢; omega)
+      simp only [derivingList, List.cons_append, ident, hd, Option.bind_eq_bind, Option.bind_some,
+        peekKw_eq hcomma, if_true, List.tail_cons, hl, Option.pure_def]
+      exact ⟨_, rfl, by simp [hls]⟩
+
+theorem printIds_length (ds : List String) : ds.length ≤ (printIds ds).length := by
+  match ds with
+  | [] => simp
+  | [d] => simp [printIds]
+  | d :: e :: ds =>
+    have := printIds_length (e :: ds)
+    simp only [printIds, List.length_cons] at this ⊢
+    omega
+
+theorem methods_split (fm : Member → Option Method)
+    (hm1 : ∀ x, fm (.m x) = some x) (hm2 : ∀ x, fm (.p x) = none)
+    (ms : List Member) (l : List MemberShape) (h : mapOpt Member.shape? ms = some l) :
+    mapOpt Method.shape? (ms.filterMap fm) = some (l.filterMap MemberShape.method?) := by
+  induction ms generalizing l with
+  | nil => simp [mapOpt] at h; subst h; simp [mapOpt]
+  | cons a as ih =>
+    obtain ⟨x, xs, rfl, hx, hxs⟩ := mapOpt_cons_inv h
+    have ih1 := ih xs hxs
+    cases a with
+    | m y =>
+      simp only [Member.shape?, Option.map_eq_some_iff] at hx
+      obtain ⟨z, hz, rfl⟩ := hx
+      simp [List.filterMap_cons, hm1, MemberShape.method?, mapOpt, hz, ih1]
+    | p y =>
+      simp only [Member.shape?, Option.map_eq_some_iff] at hx
+      obtain ⟨z, hz, rfl⟩ := hx
+      simp [List.filterMap_cons, hm2, MemberShape.method?, ih1]
+
+theorem props_split (fp : Member → Option Prop')
+    (hp1 : ∀ x, fp (.p x) = some x) (hp2 : ∀ x, fp (.m x) = none)
+    (ms : List Member) (l : List MemberShape) (h : mapOpt Member.shape? ms = some l) :
+    mapOpt Prop'.shape? (ms.filterMap fp) = some (l.filterMap MemberShape.prop?) := by
+  induction ms generalizing l with
+  | nil => simp [mapOpt] at h; subst h; simp [mapOpt]
+  | cons a as ih =>
+    obtain ⟨x, xs, rfl, hx, hxs⟩ := mapOpt_cons_inv h
+    have ih1 := ih xs hxs
+    cases a with
+    | m y =>
+      simp only [Member.shape?, Option.map_eq_some_iff] at hx
+      obtain ⟨z, hz, rfl⟩ := hx
+      simp [List.filterMap_cons, hp2, MemberShape.prop?, ih1]
+    | p y =>
+      simp only [Member.shape?, Option.map_eq_some_iff] at hx
+      obtain ⟨z, hz, rfl⟩ := hx
+      simp [List.filterMap_cons, hp1, MemberShape.prop?, mapOpt, hz, ih1]
+
+theorem peekKw_after_comments (c : List String) (cs nx : List Token) (s : String)
+    (hcs : cs.map (·.tk) = printComments c) (hnx : peekKw s nx = false) : peekKw s (cs ++ nx) = false := by
+  cases cs with
+  | nil => exact hnx
+  | cons y ys =>
+    cases c with
+    | nil => simp [printComments] at hcs
+    | cons c' _ => simp [printComments] at hcs; simp [peekKw, hcs.1]
+
+/-! ## blocks `{ element* }` -/
+
+theorem length_le_flatMap_of_mem {σ : Type} (pr : σ → List Tk) (items : List σ) (s : σ) (hs : s ∈ items) :
+    (pr s).length ≤ (items.flatMap pr).length := by
+  induction items with
+  | nil => simp at hs
+  | cons a as ih =>
+    simp only [List.flatMap_cons, List.length_append]
+    rcases List.mem_cons.mp hs with rfl | h
+    · omega
+    · have := ih h; omega
+
+/-- `many` on a printed block body `e₁ … eₙ }`: every element is at most `bound` tokens long -/
+theorem many_block {α σ τ : Type} (fuel : Nat) (p : P α) (pr : σ → List Tk) (f : α → Option τ) (g : σ → τ)
+    (items : List σ) (bound : Nat) (h1 : ∀ s, 1 ≤ (pr s).length)
+    (hstart : ∀ s ∈ items, ∀ q r, q.map (·.tk) = pr s → peekKw "}" (q ++ r) = false)
+    (hitem : ∀ s ∈ items, ∀ q r, q.map (·.tk) = pr s → q.length ≤ bound → ∃ a, p (q ++ r) = some (a, r) ∧ f a = some (g s))
+    (pre : List Token) (rb : Token) (rest : List Token) (n : Nat)
+    (hp : pre.map (·.tk) = items.flatMap pr) (hrb : rb.tk = .kw "}") (hpre : pre.length ≤ bound) (hn : pre.length < n) :
+    ∃ as, many fuel (peekKw "}") p n (pre ++ rb :: rest) = some (as, rb :: rest) ∧ mapOpt f as = some (items.map g) := by
+  have hlen := length_le_of_flatMap pr h1 items pre hp
+  have hl : pre.length = (items.flatMap pr).length := by rw [← hp, List.length_map]
+  obtain ⟨-, as, h, hs⟩ := many_print fuel (peekKw "}") p pr f g (fun _ => True) items
+    (by
+      intro s hs q r hq _
+      refine ⟨hstart s hs q r hq, trivial, hitem s hs q r hq ?_⟩
+      have := length_le_flatMap_of_mem pr items s hs
+      have e : q.length = (pr s).length := by rw [← hq, List.length_map]
+      omega)
+    pre (rb :: rest) n hp (peekKw_eq hrb) trivial (by omega)
+  exact ⟨as, h, hs⟩
+
+/-! ## the remaining declaration kinds -/
+
+theorem typeDecl_record_print (fuel : Nat) (c : List String) (ts0 : List Token) (n : String) (targets' : List String)
+    (fields : List FieldShape) (deriving' : Option (List String)) (body rest : List Token)
+    (hb : body.map (·.tk) = Tk.id n :: Tk.kw "=" :: Tk.kw "record" :: (printTargets targets' ++ Tk.kw "{" ::
+      (fields.flatMap printField ++ Tk.kw "}" :: printDeriving deriving')))
+    (hfollow : deriving' = none → peekKw "deriving" rest = false)
+    (hfuel : body.length ≤ fuel + 1) :
+    ∃ d, typeDecl fuel c ts0 (body ++ rest) = some (d, rest) ∧
+      d.shape? = some (.record n c targets' (fields.map FieldShape.erase) deriving') := by
+  obtain ⟨nt, b1, rfl, hn, hb⟩ := List.map_eq_cons_iff.mp hb
+  obtain ⟨eq, b2, rfl, heq, hb⟩ := List.map_eq_cons_iff.mp hb
+  obtain ⟨k, b3, rfl, hk, hb⟩ := List.map_eq_cons_iff.mp hb
+  obtain ⟨tg, b4, rfl, htg, hb⟩ := List.map_eq_append_iff.mp hb
+  obtain ⟨lb, b5, rfl, hlb, hb⟩ := List.map_eq_cons_iff.mp hb
+  obtain ⟨fpre, b6, rfl, hfpre, hb⟩ := List.map_eq_append_iff.mp hb
+  obtain ⟨rb, dv, rfl, hrb, hdv⟩ := List.map_eq_cons_iff.mp hb
+  simp only [List.length_cons, List.length_append] at hfuel
+  have ht := targets_print tg targets' lb (fpre ++ rb :: (dv ++ rest)) htg (by simp [hlb])
+  obtain ⟨fs, hmany, hfs⟩ := many_block fuel (field fuel) printField Field.shape? FieldShape.erase fields fuel
+    (fun s => by simp [printField]; omega)
+    (fun s _ q r hq => startsCI_peekKw (startsCI_of s.comment s.name _ q r hq) _)
+    (fun s _ q r hq hl => field_print s q r fuel hq hl)
+    fpre rb (dv ++ rest) fuel hfpre hrb (by omega) (by omega)
+  have e : nt :: eq :: k :: (tg ++ lb :: (fpre ++ rb :: dv)) ++ rest =
+      nt :: eq :: k :: (tg ++ lb :: (fpre ++ rb :: (dv ++ rest))) := by simp
+  rw [e]
+  unfold typeDecl
+  simp only [ident, hn, Option.bind_eq_bind, Option.bind_some, kw?_cons _ _ _ heq,
+    peekKw_ne hk (by decide : "record" ≠ "enum"), peekKw_ne hk (by decide : "record" ≠ "flags"), peekKw_eq hk,
+    Bool.false_eq_true, if_false, if_true, List.tail_cons, ht, kw?_cons _ _ _ hlb, hmany, kw?_cons _ _ _ hrb]
+  match deriving' with
+  | none =>
+    simp [printDeriving] at hdv; subst hdv
+    simp only [List.nil_append, hfollow rfl, Bool.false_eq_true, if_false, Option.pure_def]
+    exact ⟨_, rfl, by simp [Decl.shape?, hfs]⟩
+  | some [] =>
+    simp only [printDeriving, printIds, List.nil_append] at hdv
+    obtain ⟨dk, b7, rfl, hdk, hb⟩ := List.map_eq_cons_iff.mp hdv
+    obtain ⟨lp, b8, rfl, hlp, hb⟩ := List.map_eq_cons_iff.mp hb
+    obtain ⟨rp, b9, rfl, hrp, hb⟩ := List.map_eq_cons_iff.mp hb
+    rw [List.map_eq_nil_iff] at hb; subst hb
+    simp only [List.cons_append, List.nil_append, peekKw_eq hdk, if_true, List.tail_cons, kw?_cons _ _ _ hlp,
+      Option.bind_some, peekKw_eq hrp, Option.pure_def, kw?_cons _ _ _ hrp]
+    exact ⟨_, rfl, by simp [Decl.shape?, hfs]⟩
+  | some (d :: ds) =>
+    simp only [printDeriving] at hdv
+    obtain ⟨dk, b7, rfl, hdk, hb⟩ := List.map_eq_cons_iff.mp hdv
+    obtain ⟨lp, b8, rfl, hlp, hb⟩ := List.map_eq_cons_iff.mp hb
+    obtain ⟨ids, b9, rfl, hids, hb⟩ := List.map_eq_append_iff.mp hb
+    obtain ⟨rp, b10, rfl, hrp, hb⟩ := List.map_eq_cons_iff.mp hb
+    rw [List.map_eq_nil_iff] at hb; subst hb
+    have hil : (d :: ds).length ≤ ids.length := by
+      have := printIds_length (d :: ds); rw [← hids, List.length_map] at this; exact this
+    simp only [List.length_cons, List.length_append] at hfuel hil
+    obtain ⟨l, hl, hls⟩ := derivingList_print (d :: ds) (by simp) ids rp rest fuel hids hrp (by simp only [List.length_cons]; omega)
+    have hnp : peekKw ")" (ids ++ rp :: rest) = false := by
+      cases ds with
+      | nil =>
+        simp only [printIds] at hids
+        obtain ⟨x, _, rfl, hx, _⟩ := List.map_eq_cons_iff.mp hids
+        exact peekKw_id hx
+      | cons e es =>
+        simp only [printIds] at hids
+        obtain ⟨x, _, rfl, hx, _⟩ := List.map_eq_cons_iff.mp hids
+        exact peekKw_id hx
+    simp only [List.cons_append, List.append_assoc, List.nil_append, peekKw_eq hdk, if_true, List.tail_cons,
+      kw?_cons _ _ _ hlp, Option.bind_some, hnp, Bool.false_eq_true, if_false, hl, kw?_cons _ _ _ hrp, Option.pure_def]
+    exact ⟨_, rfl, by simp [Decl.shape?, hfs, hls]⟩
+
+theorem typeDecl_interface_print (fuel : Nat) (c : List String) (ts0 : List Token) (n : String) (main : Bool)
+    (targets' : List String) (members : List MemberShape) (body rest : List Token)
+    (hb : body.map (·.tk) = Tk.id n :: Tk.kw "=" :: (printMod main "main" ++ Tk.kw "interface" ::
+      (printTargets targets' ++ Tk.kw "{" :: (members.flatMap printMember ++ [Tk.kw "}"]))))
+    (hfuel : body.length ≤ fuel + 1) :
+    ∃ d, typeDecl fuel c ts0 (body ++ rest) = some (d, rest) ∧
+      d.shape? = some (.interface n c main targets' (sortMembers (members.map MemberShape.erase))) := by
+  obtain ⟨nt, b1, rfl, hn, hb⟩ := List.map_eq_cons_iff.mp hb
+  obtain ⟨eq, b2, rfl, heq, hb⟩ := List.map_eq_cons_iff.mp hb
+  obtain ⟨mn, b3, rfl, hmn, hb⟩ := List.map_eq_append_iff.mp hb
+  obtain ⟨k, b3, rfl, hk, hb⟩ := List.map_eq_cons_iff.mp hb
+  obtain ⟨tg, b4, rfl, htg, hb⟩ := List.map_eq_append_iff.mp hb
+  obtain ⟨lb, b5, rfl, hlb, hb⟩ := List.map_eq_cons_iff.mp hb
+  obtain ⟨mpre, b6, rfl, hmpre, hb⟩ := List.map_eq_append_iff.mp hb
+  obtain ⟨rb, b7, rfl, hrb, hb⟩ := List.map_eq_cons_iff.mp hb
+  rw [List.map_eq_nil_iff] at hb; subst hb
+  simp only [List.length_cons, List.length_append] at hfuel
+  have ht := targets_print tg targets' lb (mpre ++ rb :: rest) htg (by simp [hlb])
+  obtain ⟨ms, hmany, hms⟩ := many_block fuel (member fuel) printMember Member.shape? MemberShape.erase members fuel
+    (fun s => by cases s <;> simp [printMember, printMethod, printProp] <;> omega)
+    (fun s _ q r hq => by
+      cases s with
+      | p x =>
+        obtain ⟨cs, b1, rfl, hcs, hb⟩ := List.map_eq_append_iff.mp hq
+        obtain ⟨pk, b2, rfl, hpk, hb⟩ := List.map_eq_cons_iff.mp hb
+        rw [List.append_assoc]
+        exact peekKw_after_comments _ cs _ _ hcs (peekKw_ne hpk (by decide))
+      | m x =>
+        obtain ⟨cs, b1, rfl, hcs, hb⟩ := List.map_eq_append_iff.mp hq
+        obtain ⟨m1, b2, rfl, hm1, hb⟩ := List.map_eq_append_iff.mp hb
+        obtain ⟨m2, b3, rfl, hm2, hb⟩ := List.map_eq_append_iff.mp hb
+        obtain ⟨m3, b4, rfl, hm3, hb⟩ := List.map_eq_append_iff.mp hb
+        obtain ⟨nt, b5, rfl, hn, hb⟩ := List.map_eq_cons_iff.mp hb
+        have h0 : HeadKwId [] (nt :: (b5 ++ r)) := HeadKwId.base hn _ _
+        have h1 := ((h0.step _ _ m3 hm3).step _ _ m2 hm2).step _ _ m1 hm1
+        have e : cs ++ (m1 ++ (m2 ++ (m3 ++ nt :: b5))) ++ r = cs ++ (m1 ++ (m2 ++ (m3 ++ nt :: (b5 ++ r)))) := by simp
+        rw [e]
+        exact peekKw_after_comments _ cs _ _ hcs (h1.peekKw_false "}" (by decide)))
+    (fun s _ q r hq hl => member_print s q r fuel hq hl)
+    mpre rb rest fuel hmpre hrb (by omega) (by omega)
+  cases main with
+  | false =>
+    simp [printMod] at hmn; subst hmn
+    have e : nt :: eq :: ([] ++ k :: (tg ++ lb :: (mpre ++ [rb]))) ++ rest =
+        nt :: eq :: k :: (tg ++ lb :: (mpre ++ rb :: rest)) := by simp
+    rw [e]
+    unfold typeDecl
+    simp only [ident, hn, Option.bind_eq_bind, Option.bind_some, kw?_cons _ _ _ heq,
+      peekKw_ne hk (by decide : "interface" ≠ "enum"), peekKw_ne hk (by decide : "interface" ≠ "flags"),
+      peekKw_ne hk (by decide : "interface" ≠ "record"), peekKw_ne hk (by decide : "interface" ≠ "main"),
+      peekKw_eq hk, Bool.false_eq_true, if_false, Bool.or_true, Bool.false_or, if_true, ht, kw?_cons _ _ _ hk,
+      kw?_cons _ _ _ hlb, hmany, kw?_cons _ _ _ hrb, Option.pure_def]
+    refine ⟨_, rfl, ?_⟩
+    simp only [Decl.shape?]
+    rw [methods_split _ (fun _ => rfl) (fun _ => rfl) ms _ hms, props_split _ (fun _ => rfl) (fun _ => rfl) ms _ hms]
+    simp [sortMembers]
+  | true =>
+    simp only [printMod, if_true] at hmn
+    obtain ⟨mk, b8, rfl, hmk, hb⟩ := List.map_eq_cons_iff.mp hmn
+    rw [List.map_eq_nil_iff] at hb; subst hb
+    have e : nt :: eq :: ([mk] ++ k :: (tg ++ lb :: (mpre ++ [rb]))) ++ rest =
+        nt :: eq :: mk :: k :: (tg ++ lb :: (mpre ++ rb :: rest)) := by simp
+    rw [e]
+    unfold typeDecl
+    simp only [ident, hn, Option.bind_eq_bind, Option.bind_some, kw?_cons _ _ _ heq,
+      peekKw_ne hmk (by decide : "main" ≠ "enum"), peekKw_ne hmk (by decide : "main" ≠ "flags"),
+      peekKw_ne hmk (by decide : "main" ≠ "record"), peekKw_eq hmk, List.tail_cons,
+      Bool.false_eq_true, if_false, Bool.true_or, if_true, ht, kw?_cons _ _ _ hk,
+      kw?_cons _ _ _ hlb, hmany, kw?_cons _ _ _ hrb, Option.pure_def]
+    refine ⟨_, rfl, ?_⟩
+    simp only [Decl.shape?]
+    rw [methods_split _ (fun _ => rfl) (fun _ => rfl) ms _ hms, props_split _ (fun _ => rfl) (fun _ => rfl) ms _ hms]
+    simp [sortMembers]
+
 end Pydjinni.Front
